@@ -42,7 +42,7 @@ Entries == {"cert", "crl", "manifest", "roa", "aspa", "rta", "tal", "pubkey", "c
 HasRelaxed == {"manifest", "roa", "aspa", "rta", "sigmsg"}          \* entry points with a strict flag
 Kinds == {"delete", "duplicate", "swap-next", "move-first", "splice-other", "tag-class", "tag-number", "tag-constructed", "tag-high",
           "len-nonminimal", "len-indefinite", "len-plus", "len-minus", "len-huge", "len-zero", "empty", "value-zero", "value-ff",
-          "value-flip", "value-trunc", "value-extend", "value-highbit", "value-leadzero", "int-huge", "int-max", "segment-string", "bits-unused",
+          "value-flip", "value-trunc", "value-extend", "value-highbit", "value-leadzero", "int-huge", "int-max", "segment-string", "bits-unused", "bits-long",
           "bool-odd", "oid-cont", "time-chars", "string-bytes", "nest-deep"}
 CONSTANTS Sites, Variants, MaxMuts
 VARIABLES entry, strict, muts, outcome
